@@ -1240,6 +1240,11 @@ class Interp:
                 sym = self.as_int(args[-1], st.cond, 'range bound') if len(args) == 1 else None
                 if sym is not None and len(sym.bits) <= 6:
                     return V(('symrange', id(sym), sym))
+                if len(args) == 3 and vals[0] is not None and vals[1] is not None and 0 <= vals[1] - vals[0] <= UNROLL:
+                    # range(a, b, step) with constant bounds and a symbolic step: one unrolling per feasible step value
+                    stp = self.as_int(args[2], st.cond, 'range step')
+                    if stp is not None:
+                        return V(('steprange', id(stp), stp, vals[0], vals[1]))
                 raise Unsupported('range with symbolic bounds')
             r = range(*vals)
             if len(r) > UNROLL:
@@ -1619,6 +1624,27 @@ class Interp:
                 rest = st.copy(B.AND(st.cond, B.NOT(go)))
                 st = self.join(body_st, rest, st)
             return st
+        if isinstance(p, tuple) and p and p[0] == 'steprange':
+            B = self.B
+            stp, lo, hi = p[2], p[3], p[4]
+            out = None
+            covered = 0
+            for v in range(1, max(hi - lo, 1) + 1):
+                cv = B.AND(st.cond, self.i_eq(stp, self.const(v)))
+                if cv == 0:
+                    continue
+                covered = B.OR(covered, cv)
+                cur = st.copy(cv)
+                for i in range(lo, hi, v):
+                    if cur.cond == 0:
+                        break
+                    self.assign(s.target, V(self.const(i)), cur, s)
+                    cur = self.block(s.body, cur, rets)
+                out = cur if out is None else self.join(cur, out, st)
+            if B.AND(st.cond, B.NOT(covered)) != 0:
+                raise AnalysisError('loop step outside 1..%d (or not positive) in %s: `%s`' % (
+                    max(hi - lo, 1), self.cur_func.qualname if self.cur_func else '?', ast.unparse(s.iter)[:60]))
+            return out if out is not None else st.copy(0)
         if isinstance(p, tuple) and p and p[0] == 'symlist':
             B = self.B
             sym = p[2]
